@@ -35,7 +35,7 @@ RULE = ('cases = schedules of 2-3 real threads doing first accesses on one share
         'get(name) / cache[name] for equal and different names), chunkstore_s3._Pool with a counting factory '
         '(bodies that finish and bodies that raise).  Each schedule: no exception, no deadlock, results == '
         'single-thread results, and the observed abstract trace is validated step by step against the Lean '
-        'transition system.  non-trivial = the schedule contains at least one preemption or one blocked acquire; '
+        'transition system.  non-trivial = the schedule switches threads at least once; '
         'distinct = hash of (object, variant, schedule).  load cases = DaskLazyIndexer.get on DictChunkStore-backed '
         'arrays, threaded scheduler with 1-8 workers vs synchronous.')
 TRUSTED = ['Lean 4.33 kernel', 'axioms: propext, Classical.choice, Quot.sound only',
@@ -805,25 +805,25 @@ def variants(ctx):
     # DaskLazyIndexer: .dataset / [idx] / .shape from 2 and 3 threads, and an indexer inside an indexer
     out.append(('dask', dict(programs=pick([['outer.dataset', 'outer.getitem'], ['outer.shape']],
                                            [['outer.getitem'], ['outer.shape', 'outer.dataset']],
-                                           [['outer.len', 'outer.getitem'], ['outer.dataset']])), b2, q(700, 20000)))
+                                           [['outer.len', 'outer.getitem'], ['outer.dataset']])), b2, q(500, 3000)))
     out.append(('dask', dict(programs=pick([['outer.getitem'], ['outer.shape'], ['outer.dataset']],
-                                           [['outer.dataset'], ['outer.getitem'], ['outer.dtype']])), b3, q(500, 20000)))
+                                           [['outer.dataset'], ['outer.getitem'], ['outer.dtype']])), b3, q(400, 2500)))
     out.append(('dask', dict(nested=True, programs=pick([['outer.getitem'], ['inner.shape']],
                                                         [['outer.shape'], ['inner.getitem']],
-                                                        [['inner.dataset'], ['outer.dataset']])), b2, q(500, 20000)))
+                                                        [['inner.dataset'], ['outer.dataset']])), b2, q(400, 2500)))
     # SpectralWindow.channel_freqs
     out.append(('spw', dict(programs=pick([['freqs', 'freq3'], ['freqs']], [['freq3'], ['freqs', 'freqs']])),
-                q(3, 4), q(400, 5000)))
-    out.append(('spw', dict(programs=[['freqs'], ['freq3'], ['freqs']]), b3, q(300, 5000)))
+                q(3, 4), q(400, 3000)))
+    out.append(('spw', dict(programs=[['freqs'], ['freq3'], ['freqs']]), b3, q(300, 3000)))
     # SensorCache: same name, different names, virtual sensor whose creation recurses
     out.append(('cache', dict(programs=pick([[['get', 4]], [['item', 0], ['get', 3]]],
                                             [[['get', 3]], [['get', 3], ['item', 2]]],
-                                            [[['item', 4]], [['get', 4]]])), b2, q(600, 20000)))
+                                            [[['item', 4]], [['get', 4]]])), b2, q(500, 4000)))
     out.append(('cache', dict(programs=pick([[['get', 3]], [['item', 3]], [['get', 2], ['item', 1]]],
-                                            [[['get', 4]], [['item', 1]], [['get', 0]]])), b2, q(400, 20000)))
+                                            [[['get', 4]], [['item', 1]], [['get', 0]]])), b2, q(350, 3000)))
     # _Pool: borrow / return, bodies that raise
-    out.append(('pool', dict(plans=pick(['11', '1'], ['11', '11'], ['10', '11'])), q(3, 4), q(700, 20000)))
-    out.append(('pool', dict(plans=pick(['11', '1', '1'], ['1', '01', '11'])), b2, q(500, 20000)))
+    out.append(('pool', dict(plans=pick(['11', '1'], ['11', '11'], ['10', '11'])), q(3, 4), q(600, 6000)))
+    out.append(('pool', dict(plans=pick(['11', '1', '1'], ['1', '01', '11'])), b2, q(450, 5000)))
     return out
 
 
